@@ -189,11 +189,21 @@ def _case_h2(rng, tier, n, h2c=False):
             client.append(["react", "window_update", 0, need])
             client.append(["react", "settings", {"4": min((1 << 31) - 1, iw + need)}])
     client.append(["settle"])
-    return {"family": "h2c" if h2c else ("h2.tls" if tls else "h2.prior"), "backends": ["asyncio", "trio"],
+    cut = False
+    if not h2c and not tls and rspec.get("credit") == "auto" and rng.random() < 0.08:
+        # the client stops reading, finishes sending (half-close) and reads again: whatever the server makes of the half-close, a response
+        # it has not sent in full must not be *ended* as if it were complete
+        cut = True
+        if rng.random() < 0.5:
+            client = [["pause"]] + client + [["eof"], ["settle"], ["resume"], ["settle"]]
+        else:
+            # ... stops reading a few scheduler turns into the server's answering
+            client = [["feed_nosettle", bytes(blob)], ["turns", rng.choice([1, 2, 3, 5, 8, 13])], ["pause"], ["settle"], ["eof"], ["settle"], ["resume"], ["settle"]]
+    return {"family": ("h2c" if h2c else ("h2.tls" if tls else "h2.prior")) + (".pause-eof-resume" if cut else ""), "backends": ["asyncio", "trio"],
             "config": config, "conn": {"tls": tls, "alpn": "h2" if tls else None},
             "apps": {"default": [["recv_until_end"], ["respond", 200, [], b"d"]], "by_tag": by_tag},
             "client": client, "reactor": rspec,
-            "truth": {"requests": reqs, "responses": resps, "proto": "h2c" if h2c else "h2"},
+            "truth": {"requests": reqs, "responses": resps, "proto": "h2c" if h2c else "h2", "cut": cut},
             "sched": {"seed": rng.randrange(1 << 30), "net_jitter": rng.choice([None, None, [0.3, 3]])}}
 
 
@@ -463,6 +473,19 @@ def check(case, obs, tally):
             return out
     if rx.errors():
         out.append({"clause": "h2.end", "sig": "C02.h2/frame-errors", "detail": repr(rx.errors()[:3])})
+    if truth.get("cut"):
+        # the connection was (half-)closed by the client in mid-flight: only "never ended unless complete" is demanded
+        for i, resp in enumerate(truth["responses"]):
+            s = rx.streams.get(truth["requests"][i]["sid"])
+            if s is None or not s.ended:
+                continue
+            tally.clause("h2.end")
+            exp = b"" if resp["suppressed"] else pattern(("resp", resp["tag"]), 0, resp["total"])
+            if bytes(s.data) != exp:
+                out.append({"clause": "h2.end", "sig": "C02.h2/ended-incomplete-after-half-close",
+                            "detail": "tag %d stream %d: END_STREAM after %d of %d body bytes (the client had stopped reading, half-closed, and read again)" % (
+                                resp["tag"], truth["requests"][i]["sid"], len(s.data), len(exp))})
+        return out
     for i, resp in enumerate(truth["responses"]):
         req = truth["requests"][i]
         sid = req["sid"]
